@@ -7,7 +7,7 @@ hx = S.hx
 
 # theorems added in round 6 (kept here: sqio_common.py is shared with C02 / C07)
 R6_THEOREMS = ["tracker_iff", "tracker_sound", "tracker_rejects_former_exceptions", "position_then_read_eq_record", "rewind_then_read_all_eq_parseFasta",
-               "tracker_ignores_where_seebuf_stops", "position_yields_ready_handle", "position_then_read_all_eq_spec"]
+               "tracker_ignores_where_seebuf_stops", "position_yields_ready_handle", "position_then_read_all_eq_spec", "position_at_record_then_read_all_eq_scan_tail"]
 
 
 def tracker_predicate(data):
@@ -240,7 +240,7 @@ class C04(Prop):
                 nrec = len(lens)
                 ops = ["file ext=fa hex=" + hx(data)]
                 for _ in range(rng.choice([1, 2])):
-                    call = rng.choice(["read", "read", "win"])      # (ReadSequence goes through skip_fasta, which never starts the line bookkeeping)
+                    call = rng.choice(["read", "read", "win", "readinfo"])      # (ReadSequence goes through skip_fasta, which never starts the line bookkeeping)
                     ops.append("open fmt=fasta abc=%s B=%d" % (rng.choice(["text", "dna"]), S.pick_B(rng, data)))
                     if call == "win":
                         W = rng.choice([3, 7, 64, 5000])
